@@ -629,6 +629,12 @@ def _numerically_equal(a, b, trials=8, need=4, rel=1e-13):
     if not isinstance(a, Rat) or not isinstance(b, Rat):
         return False
     ids = sorted(set(a.atoms(deep=True)) | set(b.atoms(deep=True)))
+    if any(TABLE.atoms[k].kind == 'fn' and TABLE.atoms[k].name in ('ite', 'lt', 'le', 'gt', 'ge', 'eq', 'ne', 'and', 'or', 'not', 'truthy', 'in', 'notin', 'isinstance', 'type',
+                                                                     'int', 'floor', 'ceil', 'nearest', 'rnd', 'rndsig', 'mod', 'floordiv', 'fmod', 'max', 'min')
+           for k in ids):
+        # conditionals and step functions differ on sets a handful of sample points do not meet (a flag, an equality, a boundary): the veto is
+        # for smooth arithmetic only
+        return False
     syms = [TABLE.atoms[k] for k in ids if TABLE.atoms[k].kind == 'sym' and TABLE.atoms[k].name != 'pi']
     try:
         shared = sorted(_shared_opaque(a, b))
